@@ -368,6 +368,7 @@ class StmtMixin(BuiltinMixin):
             if isinstance(subj, Raise):
                 out.append((s0, subj))
                 continue
+            subj = self.strip_opt(s0, subj)
             pending = [s0]
             for case in s.cases:
                 nxt = []
